@@ -19,12 +19,15 @@ import (
 	"net/http"
 	"os"
 	"path/filepath"
+	"sync"
 	"testing"
+	"time"
 
 	metav1 "k8s.io/apimachinery/pkg/apis/meta/v1"
 	"k8s.io/apimachinery/pkg/runtime"
 	"k8s.io/apimachinery/pkg/runtime/schema"
 	"k8s.io/apimachinery/pkg/types"
+	apiwatch "k8s.io/apimachinery/pkg/watch"
 	"k8s.io/client-go/rest"
 
 	"github.com/containers/nri-plugins/pkg/agent/watch"
@@ -422,4 +425,198 @@ func TestVerifC17(t *testing.T) {
 			enc.Encode(&o)
 		}
 	}
+}
+
+// ---------------------------------------------------------------------------------------
+// Dispatch: the same kind of scenario driven through the real Agent.Start select loop.
+// Node-specific events come from the real file watch (watch.File + fsnotify) on a temp file,
+// group events from an apimachinery FakeWatcher installed as a.groupCfgWatch.  A twin agent
+// receives the same events through direct calls; the calls of both must agree step by step.
+
+type vc17DispStep struct {
+	Op   string     `json:"op"`
+	Want []vc17Call `json:"want"`
+	Got  []vc17Call `json:"got"`
+}
+
+func TestVerifC17Dispatch(t *testing.T) {
+	out := os.Getenv("VERIF_OUT")
+	if out == "" {
+		t.Skip("VERIF_OUT not set")
+	}
+	logger.SetLevel(logger.LevelFatal)
+	res := struct {
+		Skipped string         `json:"skipped,omitempty"`
+		Steps   []vc17DispStep `json:"steps"`
+		OK      bool           `json:"ok"`
+		What    string         `json:"what,omitempty"`
+	}{}
+	defer func() {
+		data, _ := json.Marshal(&res)
+		os.WriteFile(filepath.Join(out, "c17_dispatch.json"), data, 0o644)
+		if !res.OK && res.Skipped == "" {
+			t.Errorf("dispatch differs: %s", res.What)
+		}
+	}()
+
+	specs := []vc17Spec{
+		{UID: 1, Gen: 0, Name: 0, Valid: true, Accept: true},  // node file, generation 0
+		{UID: 1, Gen: 0, Name: 0, Valid: true, Accept: true},  // node file rewritten (still generation 0)
+		{UID: 9, Gen: 1, Name: 1, Valid: true, Accept: true},  // group g1
+		{UID: 9, Gen: 2, Name: 1, Valid: true, Accept: true},  // group g2
+		{UID: 3, Gen: 0, Name: 0, Valid: false, Accept: true}, // node file failing validation
+	}
+	dir, err := os.MkdirTemp("", "verif-c17-")
+	if err != nil {
+		t.Fatal(err)
+	}
+	defer os.RemoveAll(dir)
+	cfgFile := filepath.Join(dir, "config.yaml")
+
+	env := &vc17EnvSync{vc17Env: vc17Env{node: "verif-node"}}
+	env.specs = specs
+	a, err := New(env, WithConfigFile(cfgFile), WithConfigNamespace("verif-ns"))
+	if err != nil {
+		t.Fatal(err)
+	}
+	a.nodeName = env.node
+	gw := apiwatch.NewFake()
+	a.groupCfgWatch = gw
+
+	twin, tenv, err := vc17NewAgent()
+	if err != nil {
+		t.Fatal(err)
+	}
+
+	startErr := make(chan error, 1)
+	go func() { startErr <- a.Start(env.notify) }()
+	defer func() {
+		defer func() { recover() }()
+		close(a.stopC)
+	}()
+
+	barrier := func() bool {
+		// two no-op events through the unbuffered fake watch: when the second is taken the
+		// loop has finished processing everything it received before the first
+		for i := 0; i < 2; i++ {
+			done := make(chan struct{})
+			go func() { gw.Action(apiwatch.Bookmark, nil); close(done) }()
+			select {
+			case <-done:
+			case err := <-startErr:
+				res.Skipped = fmt.Sprintf("Agent.Start returned early: %v", err)
+				return false
+			case <-time.After(10 * time.Second):
+				res.What = "Agent.Start loop does not consume group watch events"
+				return false
+			}
+		}
+		return true
+	}
+	if !barrier() {
+		return
+	}
+
+	type step struct {
+		op    string
+		group bool
+		pos   int // 0 = delete
+	}
+	steps := []step{
+		{"group added g1", true, 3},
+		{"node file created n1", false, 1},
+		{"group modified g2 (node config present)", true, 4},
+		{"node file replaced n1' (generation 0)", false, 2},
+		{"node file replaced by one failing validation", false, 5},
+		{"node file removed", false, 0},
+		{"group deleted", true, 0},
+		{"group added g1", true, 3},
+	}
+	res.OK = true
+	for _, s := range steps {
+		// expected: the twin, by direct calls
+		tenv.calls = nil
+		var obj runtime.Object
+		if s.pos != 0 {
+			obj = specs[s.pos-1].object(s.pos)
+		}
+		if s.group {
+			twin.updateGroupConfig(obj)
+		} else {
+			twin.updateNodeConfig(obj)
+		}
+		want := append([]vc17Call{}, tenv.calls...)
+
+		env.reset()
+		if s.group {
+			if s.pos == 0 {
+				gw.Delete(specs[2].object(3))
+			} else if s.pos == 3 {
+				gw.Add(obj)
+			} else {
+				gw.Modify(obj)
+			}
+		} else {
+			if s.pos == 0 {
+				os.Remove(cfgFile)
+			} else {
+				tmp := filepath.Join(dir, "tmp-new")
+				os.WriteFile(tmp, []byte(fmt.Sprintf("%d\n", s.pos)), 0o644)
+				os.Rename(tmp, cfgFile)
+			}
+			// file events are asynchronous: wait until the expected number of calls was made
+			deadline := time.Now().Add(10 * time.Second)
+			for env.count() < len(want) && time.Now().Before(deadline) {
+				time.Sleep(2 * time.Millisecond)
+			}
+			time.Sleep(20 * time.Millisecond)
+		}
+		if !barrier() {
+			res.OK = false
+			return
+		}
+		got := env.snapshot()
+		res.Steps = append(res.Steps, vc17DispStep{Op: s.op, Want: want, Got: got})
+		if fmt.Sprint(want) != fmt.Sprint(got) {
+			res.OK = false
+			res.What = fmt.Sprintf("step %q through Agent.Start: calls %v, direct update calls give %v", s.op, got, want)
+			return
+		}
+	}
+}
+
+// vc17EnvSync: the recording environment, safe for use from the Start goroutine
+type vc17EnvSync struct {
+	vc17Env
+	mu    sync.Mutex
+	specs []vc17Spec
+}
+
+func (e *vc17EnvSync) PatchStatus(ctx context.Context, ns, name string, pt types.PatchType, data []byte, opts metav1.PatchOptions) error {
+	e.mu.Lock()
+	defer e.mu.Unlock()
+	return e.vc17Env.PatchStatus(ctx, ns, name, pt, data, opts)
+}
+func (e *vc17EnvSync) notify(cfg interface{}) (bool, error) {
+	e.mu.Lock()
+	defer e.mu.Unlock()
+	return e.vc17Env.notify(cfg)
+}
+func (e *vc17EnvSync) Unmarshal(data []byte, file string) (runtime.Object, error) {
+	var pos int
+	if _, err := fmt.Sscanf(string(data), "%d", &pos); err != nil || pos < 1 || pos > len(e.specs) {
+		return nil, errors.New("verif: bad file content")
+	}
+	return e.specs[pos-1].object(pos), nil
+}
+func (e *vc17EnvSync) reset() { e.mu.Lock(); e.calls = nil; e.mu.Unlock() }
+func (e *vc17EnvSync) count() int {
+	e.mu.Lock()
+	defer e.mu.Unlock()
+	return len(e.calls)
+}
+func (e *vc17EnvSync) snapshot() []vc17Call {
+	e.mu.Lock()
+	defer e.mu.Unlock()
+	return append([]vc17Call{}, e.calls...)
 }
